@@ -14,6 +14,9 @@
 #include <cmath>
 #include <cstdint>
 #include <climits>
+#include <cerrno>
+#include <cfenv>
+#include <locale>
 #include <functional>
 #include <iostream>
 #include <sstream>
@@ -228,6 +231,63 @@ inline int tmpfd()
 	return fd;
 }
 
+// Process-global state the library does not own (DESIGN.md section 16, sixth wave). With HZ_DIRTY_ENV set the harness raises
+// every sticky floating-point exception flag and sets errno = ERANGE right before each request body: a library that READS that
+// state answers differently from the clean run (check.py compares the two runs bitwise). After each body the rounding mode, the
+// formatting state of std::cout/std::cerr and the global locale must be what they were: a library that LEAVES them changed is
+// reported as " env-changed:<what>" behind the observation.
+extern bool g_dirty_env;
+inline void env_dirty()
+{
+	if(g_dirty_env)
+	{
+		feraiseexcept(FE_ALL_EXCEPT);
+		errno = ERANGE;
+	}
+}
+struct EnvSnapshot
+{
+	int round;
+	std::ios_base::fmtflags cout_flags, cerr_flags;
+	std::streamsize cout_prec, cerr_prec;
+	char cout_fill, cerr_fill;
+	std::string loc;
+	EnvSnapshot()
+	: round(fegetround()), cout_flags(std::cout.flags()), cerr_flags(std::cerr.flags()), cout_prec(std::cout.precision()), cerr_prec(std::cerr.precision()), cout_fill(std::cout.fill()), cerr_fill(std::cerr.fill()), loc(std::locale().name())
+	{
+	}
+	// what differs now; restores the snapshot
+	std::string changed()
+	{
+		std::string w;
+		if(fegetround() != round)
+		{
+			w += " env-changed:rounding-mode";
+			fesetround(round);
+		}
+		if(std::cout.flags() != cout_flags || std::cout.precision() != cout_prec || std::cout.fill() != cout_fill)
+		{
+			w += " env-changed:cout-format";
+			std::cout.flags(cout_flags);
+			std::cout.precision(cout_prec);
+			std::cout.fill(cout_fill);
+		}
+		if(std::cerr.flags() != cerr_flags || std::cerr.precision() != cerr_prec || std::cerr.fill() != cerr_fill)
+		{
+			w += " env-changed:cerr-format";
+			std::cerr.flags(cerr_flags);
+			std::cerr.precision(cerr_prec);
+			std::cerr.fill(cerr_fill);
+		}
+		if(std::locale().name() != loc)
+		{
+			w += " env-changed:global-locale";
+			std::locale::global(std::locale::classic());
+		}
+		return w;
+	}
+};
+
 // Run `body` in a forked child. The child's fds 1/2 go to a scratch file (the "diagnostic");
 // the observation it produces goes to another scratch file. Classification:
 //   normal return                          -> what body wrote ("ok ...")
@@ -254,7 +314,10 @@ inline std::string run_forked(const std::function<void(Out&)>& body, std::string
 		dup2(dfd, 2);
 		alarm(g_fork_timeout_s);
 		Out o;
+		EnvSnapshot snap;
+		env_dirty();
 		body(o);
+		o.s << snap.changed();
 		std::cout.flush();
 		std::cerr.flush();
 		fflush(stdout);
@@ -309,7 +372,10 @@ inline std::string run_forked(const std::function<void(Out&)>& body, std::string
 inline std::string run_inline(const std::function<void(Out&)>& body)
 {
 	Out o;
+	EnvSnapshot snap;
+	env_dirty();
 	body(o);
+	o.s << snap.changed();
 	return "ok" + o.s.str();
 }
 
@@ -332,6 +398,7 @@ int g_out_fd		 = 1;
 int g_fork_timeout_s = 20;
 long g_forks = 0, g_asan = 0, g_signals = 0;
 bool g_fork_all = false;
+bool g_dirty_env = false;
 }	// namespace hz
 
 int main(int argc, char** argv)
@@ -339,6 +406,7 @@ int main(int argc, char** argv)
 	using namespace hz;
 	g_out_fd		= dup(1);
 	g_fork_all		= getenv("HZ_FORK_ALL") != nullptr;
+	g_dirty_env		= getenv("HZ_DIRTY_ENV") != nullptr;
 	const char* log = argc > 1 ? argv[1] : "/dev/null";
 	int lfd			= open(log, O_WRONLY | O_CREAT | O_TRUNC, 0644);
 	if(lfd >= 0)
